@@ -462,6 +462,24 @@ pub fn run(opts: &Opts) -> Report {
             let q3 = format!("DELETE ANNOTATION ?a{}{{ SELECT ANNOTATION ?a WHERE {}{}{}}}", w, b, semi, w);
             check_malformed(&mut rep, &q3);
         } } } }
+        // white space between the last constraint of a sub-query and the `}` or `|` that follows is no part of the query:
+        // with it the text is read as without it (the same structure, or refused both)
+        let verdict = |q: &str| -> String { match guarded(std::panic::AssertUnwindSafe(|| Query::parse(q).map(|(q, r)| format!("{}|{}", q.to_string().unwrap_or_else(|e| format!("unprintable {}", e)), r)).map_err(|_| ()))) { Ok(Ok(t)) => format!("ok {}", t), Ok(Err(())) => "refused".into(), Err(m) => format!("PANIC {}", m.chars().take(60).collect::<String>()) } };
+        for b in bodies { for semi in ["", ";"] { for head in ["SELECT ANNOTATION ?a WHERE ID \"x\";", "DELETE ANNOTATION ?a"] { for closer in ["}", "| SELECT DATA ?c }"] {
+            // (the reference is one space: without any, an unquoted argument runs into the brace)
+            let plain = format!("{} {{ SELECT ANNOTATION ?b WHERE {}{} {}", head, b, semi, closer);
+            let v0 = verdict(&plain);
+            // (an unquoted argument ends at ASCII white space only: other white space is tried after a quote, a bracket or a semicolon)
+            let closed_end = semi == ";" || b.ends_with('"') || b.ends_with(']');
+            let tried: Vec<&str> = if closed_end { wss.iter().skip(2).cloned().chain(["  ", " \n\t "]).collect() } else { vec!["\t", "\n", "  ", " \n\t "] };
+            for w in tried.iter() {
+                let q = format!("{} {{ SELECT ANNOTATION ?b WHERE {}{}{}{}", head, b, semi, w, closer);
+                rep.count("whitespace-before-closer");
+                rep.case(Some(&q));
+                let v = verdict(&q);
+                if v != v0 { rep.fail(if v.starts_with("PANIC") { "panic" } else { "oracle" }, "C09/whitespace-before-closer-changes-the-reading", vec![format!("query: {}", q), format!("hex: {}", hex(&q)), format!("with one space: {}", plain)], &v0, &v); }
+            }
+        } } } }
     }
     built_stream(&mut rep);
     lexical_stream(&mut rep, &mut g, if opts.thorough() { 20000 } else { 2000 });
